@@ -70,7 +70,7 @@ def view(sc, strip):
 
 class C11(Prop):
     id = 'C11'
-    quick_cases = 600
+    quick_cases = 1500
     thorough_cases = 20000
     rule = ('valid statecharts built through the API with hostile strings in every string field (unicode incl. non-BMP, '
             'YAML-significant punctuation, leading/trailing blanks, multi-line, yes/no/null/~/1e3/0x1, empty) and random '
